@@ -26,8 +26,9 @@ inductive Val where
   | time (h m s us : Nat)
 deriving Repr, DecidableEq
 
-/-- `time_to_seconds`: whole seconds only -/
-def timeToSeconds (h m s : Nat) : Rat := (((h * 60 + m) * 60 + s : Nat) : Rat)
+/-- `time_to_seconds`: the seconds since midnight, with the fraction of a second when there is one -/
+def timeToSeconds (h m s us : Nat) : Rat :=
+  if us = 0 then (((h * 60 + m) * 60 + s : Nat) : Rat) else (((h * 60 + m) * 60 + s : Nat) : Rat) + (us : Rat) / 1000000
 
 /-- `get_numeric_types_distance`: first row of `TYPES_TO_DIST_FUNC` both operands are instances
 of.  A `datetime` is also a `date`; `ordOf` gives `toordinal()` of a datetime (a parameter:
@@ -40,7 +41,7 @@ def typedDist (ordOf : Int → Int) (x y : Val) (mx : Rat) : Option Rat :=
   | .date a, .datetime b => some (numDist a (ordOf b) mx)
   | .date a, .date b => some (numDist a b mx)
   | .timedelta a, .timedelta b => some (numDist ((a : Rat) / 1000000) ((b : Rat) / 1000000) mx)
-  | .time h m s _, .time h' m' s' _ => some (numDist (timeToSeconds h m s) (timeToSeconds h' m' s') mx)
+  | .time h m s u, .time h' m' s' u' => some (numDist (timeToSeconds h m s u) (timeToSeconds h' m' s' u') mx)
   | _, _ => none
 
 end Dist
